@@ -7,6 +7,7 @@ SPEC = {
         'C24_refines_sorted_list', 'C24_order', 'C24_fifo_ties', 'C24_capacity', 'C24_no_duplicates',
         'C24_observers_agree', 'C24_push_rule', 'C24_reject_unchanged', 'C24_remove_rule',
         'C24_insert_position', 'C24_push_total',
+        'C24_skiplist_refines_level0', 'C24_skiplist_level_independent', 'C24_queue_uses_level0',
     ],
     'allowed_axioms': [],
     'shard': 25,
@@ -19,13 +20,25 @@ SPEC = {
             'edge-cap-nonpositive (capacity 0/-1/-2/int64 min: every Push is ErrMemFull, state unchanged; former finding 1, '
             'fixed in 5c1c856). Every history is executed three times under different '
             'math/rand seeds and must give identical observables. non-trivial = some Push was answered on a full queue '
-            '(eviction or ErrMemFull); distinct = distinct Gallina case terms',
+            '(eviction or ErrMemFull); distinct = distinct Gallina case terms. Layer 2 (CSkip cases): one history of '
+            'Insert/Delete/Find/FindGreaterOrEqual/in-place update on a skiplist.SkipList under a seeded math/rand; per operation '
+            'the result and Len, Level, FindCount, WalkS, the prev chain from Iterator.Last, First, Last; the rand.Int()&0xFFFF '
+            'draws randomLevel consumed (re-computed by a second generator with the same seed, advanced in lock-step) are the '
+            'input stream of the multi-level Coq model, which must reproduce Level and FindCount exactly; the spec side is the '
+            'level-0 sorted list. Streams: fixed corner cases, skip-dups (2-6 scores, duplicates allowed), skip-queue-like (one node '
+            'per score, Find then Insert or mutate), skip-large (scores -40..40, 120-260 ops), skip-drain (grow then delete everything). '
+            'non-trivial there = the list reached 3 levels and some Delete removed a node',
     'trusted_base': [
         'Scorer.Compare (an interface method supplied by the caller) is modelled as comparison of an integer rank field; '
         'the harness Scorer implements exactly that',
         'container/list elements and Go map keys are identified by the item hash (unique in the queue: proved invariant)',
-        'layer 1 only: SkipList Find/Insert/Delete are modelled by their level-0 effect (sl_find/sl_insert/sl_delete); the '
-        'independence of the random level structure is checked by the correspondence runs (three rand seeds, large stream), not proved',
+        'layer 1 (Queue) uses the level-0 effect of SkipList Find/Insert/Delete (sl_find/sl_insert/sl_delete/sl_update); layer 2 '
+        '(SkipModel.v) is a pointer-free model of skiplist.go (node records with next arrays, prev, tail, level, count, findcount in a '
+        'heap indexed by node numbers; loops with fuel count+1; nil dereference / index out of range = Panic) and is proved to refine '
+        'level 0 for every random stream; the two layers are connected by C24_queue_uses_level0 (insertSkipValue/deleteSkipValue are '
+        'level-0 histories), not by re-running the Queue proofs over the heap model',
+        'math/rand: the model takes the rand.Int() results as an input list (an exhausted list ends randomLevel\'s loop); the harness '
+        'relies on rand.Seed(s) and rand.New(rand.NewSource(s)) producing the same sequence',
         'int64 overflow of GetCacheBytes is not modelled (bytes are unbounded Z; harness sizes stay small)',
     ],
     'assumptions': [
@@ -36,9 +49,10 @@ SPEC = {
     'manifest': {
         'level_text': 'full for the Queue logic over the level-0 view of the skip list (order, FIFO ties, capacity, eviction rule, '
                       'observers, refinement to a sorted list, totality of Push; all histories and all capacities including <= 0, '
-                      'finding 1 fixed in 5c1c856); the multi-level pointer structure of SkipList is covered by correspondence only',
-        'level_note': 'Scorer.Compare modelled as rank comparison; list elements identified by hash; skip-list levels not modelled '
-                      '(observables compared under three different math/rand seeds per history)',
+                      'finding 1 fixed in 5c1c856); full for the multi-level SkipList (Insert/Delete/Find/FindGreaterOrEqual refine the '
+                      'level-0 sorted list for every level stream, no nil dereference, loops bounded, prev/tail consistent)',
+        'level_note': 'Scorer.Compare modelled as rank comparison; list elements identified by hash; skip-list nodes live in a heap '
+                      'indexed by node numbers (pointer-free), random numbers are an input stream; Queue proofs are over the level-0 view',
         'technique': 'Coq proof (simulation of a flat sorted-list specification, invariant by induction over op histories) + '
                      'in-kernel correspondence check',
     },
